@@ -143,8 +143,8 @@ CLAIMED = {
     ),
     "C20": (
         "other",
-        "Coq proofs of the inline parser's guards on the model (skipToken memoisation, nesting cap) + guard-state correspondence (memo table, backtick closer cache) model vs implementation + deterministic call-count measurement of growth on the implementation",
-        "Cost is not a functional property of the model, so family-level linearity is measured, not proved. Proved for ALL states: a skipToken hit runs no rule, a miss caches its position - the maxNesting bail-out included - so the body runs at most once per position, and at the cap the tail is skipped rather than recursed into (C20_skip_token_hit, C20_skip_token_memo, C20_nesting_cap). Each run: the guard state after ParserInline.tokenize (memo table, backtick cache, scanned flag) of model and implementation must coincide on three small sizes of each of ~85 scalable input families, and the implementation's calls into markdown_it (sys.setprofile) are counted at L, 2L, 4L per family x {commonmark, js-default+typographer}: a doubling may multiply the work by at most 2.4 (plus constant slack) and the Python stack depth may not grow beyond what maxNesting allows. Known finding (listed, reported each run): consecutive reference definitions are quadratic.",
+        "Coq proofs of the parser's guards on the model (skipToken memoisation, nesting cap, block line loop at most once per line) + guard-state correspondence (memo table, backtick closer cache) model vs implementation + deterministic call-count measurement of growth on the implementation",
+        "Cost is not a functional property of the model, so family-level linearity is measured, not proved. Proved for ALL states: a skipToken hit runs no rule, a miss caches its position - the maxNesting bail-out included - so the body runs at most once per position, and at the cap the tail is skipped rather than recursed into (C20_skip_token_hit, C20_skip_token_memo, C20_nesting_cap); and the block line loop runs at most once per line - whenever ParserBlock.tokenize's loop returns at all it returns the same state for every fuel above the number of lines left, because each pass over the rule chain advances the cursor (C20_block_loop_once_per_line, for every source and configuration with the paragraph rule), so the number of rule-chain passes is linear in the number of lines; the cost of one pass (terminator scans) is what the known findings are about. Each run: the guard state after ParserInline.tokenize (memo table, backtick cache, scanned flag) of model and implementation must coincide on three small sizes of each of ~85 scalable input families, and the implementation's calls into markdown_it (sys.setprofile) are counted at L, 2L, 4L per family x {commonmark, js-default+typographer}: a doubling may multiply the work by at most 2.4 (plus constant slack) and the Python stack depth may not grow beyond what maxNesting allows. Known finding (listed, reported each run): consecutive reference definitions are quadratic.",
         "Trusted: Coq kernel; inline model tied by sampled correspondence incl. guard state; growth is a measurement at finitely many lengths (quick L=700, thorough L=12000).",
         "DESIGN.md §3 C20",
     ),
